@@ -46,17 +46,34 @@ def exit_stmt(b):
     raise ValueError(e)
 
 
-def render_body(b):
+def render_core(b):
     eo, ec = ENCL[b["encl"]]
-    core = "outer: for (var o=0;o<2;o++) { " + eo + INNER_OPEN[b["inner"]] + exit_stmt(b) + INNER_CLOSE[b["inner"]] + ec + " }"
+    return "outer: for (var o=0;o<2;o++) { " + eo + INNER_OPEN[b["inner"]] + exit_stmt(b) + INNER_CLOSE[b["inner"]] + ec + " }"
+
+
+def render_body(b):
     # a throw that nothing inside B catches is caught around B
-    return "try { " + core + " } catch (eB) { acc+=13 }"
+    return "try { " + render_core(b) + " } catch (eB) { acc+=13 }"
 
 
 def render_program(b, n):
     B = render_body(b)
     pre = "function thrower(){ throw 4 } function id2(a,b){ return b } var acc=0; var sink=0; "
     p = b["place"]
+    if p.endswith("_catch_outside"):
+        # the throw leaves the function that the native / call is running; the handler is in the iterating frame
+        C = render_core(b)
+        kind = p[:-len("_catch_outside")]
+        fn, call = {
+            "cb": ("", "[1].forEach(function(){ %s });" % C),
+            "getter": ("var holder = { get g(){ %s return acc } };" % C, "sink = 1 + holder.g;"),
+            "valueof": ("var vobj = { valueOf: function(){ %s return 1 } };" % C, "sink = 1 + vobj;"),
+            "call": ("function body(){ %s return acc }" % C, "sink = [1, body.call(null)].length;"),
+            "sort": ("", "[2,1].sort(function(a,b){ %s return a-b });" % C),
+            "func": ("function body(){ %s return acc }" % C, "sink = 1 + body();"),
+            "ctor": ("function Ctor(){ %s this.a = acc }" % C, "sink = [new Ctor()].length;"),
+        }[kind]
+        return pre + fn + " for (var it=0; it<%d; it++) { try { %s } catch (eO) { acc+=23 } } acc" % (n, call)
     if p == "inline":
         return pre + "for (var it=0; it<%d; it++) { %s } acc" % (n, B)
     fn = "function body(){ %s return acc }" % B
